@@ -60,14 +60,21 @@ Proof.
   destruct (split_eq r) as [n v]. simpl. destruct (beq c dash); simpl; [lia | discriminate].
 Qed.
 
+(* the guard of validate(), in whatever spelling (`!v && !d` around the scan, or an early `if (v || d) return;`), is
+   "neither a value nor the double dash" *)
+Definition guard_of (v : vshape) : pexpr := match v with VScan g _ _ _ => g | VUnknown => PUnknown end.
+Lemma validate_guard : forall a,
+  eval F gen_pred a (guard_of gen_validate) = Some (negb (is_value a) && negb (is_double_dash a)).
+Proof.
+  intros a. unfold gen_validate, guard_of, is_value, is_double_dash. unfold dash, eqc. cbn.
+  destruct (name_of a) as [|c0 r]; cbn;
+    repeat (tok_split; cbn); try reflexivity; destruct (seq_eqb a _); reflexivity.
+Qed.
+
 Theorem Tie_C04_validate : forall a, eval_validate F gen_pred gen_validate a = Some (well_formed a).
 Proof.
-  intros a. unfold gen_validate, eval_validate.
-  change (eval F gen_pred a (PAnd (PNot (PCall PnIsValue)) (PNot (PCall PnIsDoubleDash)))) with
-    (lift2 andb (option_map negb (eval 2 gen_pred a (gen_pred PnIsValue))) (option_map negb (eval 2 gen_pred a (gen_pred PnIsDoubleDash)))).
-  change (eval 2 gen_pred a (gen_pred PnIsValue)) with (eval F gen_pred a (gen_pred PnIsValue)).
-  change (eval 2 gen_pred a (gen_pred PnIsDoubleDash)) with (eval F gen_pred a (gen_pred PnIsDoubleDash)).
-  rewrite Tie_C04_is_value, Tie_C04_is_double_dash. cbn [option_map lift2].
+  intros a. pose proof (validate_guard a) as G. unfold gen_validate, guard_of in G. unfold gen_validate, eval_validate.
+  rewrite G.
   unfold well_formed. destruct (is_value a) eqn:V; cbn [negb andb orb]; [reflexivity|].
   destruct (is_double_dash a); cbn [negb andb orb]; [reflexivity|].
   change x2d with dash. change x3d with eqc. rewrite run_of_count. f_equal.
